@@ -4,7 +4,7 @@ P=$(readlink -f "$1"); ID=$2; TIER=${3:-quick}
 cd /repo || exit 9
 if ! git diff --quiet; then echo "/repo dirty"; exit 9; fi
 git apply "$P" || { echo "patch does not apply"; exit 9; }
-cd /verif && ./check $ID --tier $TIER 2>&1 | grep -v "^WARNING conda" | tail -${LINES_OUT:-6} | cut -c1-400
+cd /verif && VERIF_NO_EVIDENCE=1 ./check $ID --tier $TIER 2>&1 | grep -v "^WARNING conda" | tail -${LINES_OUT:-6} | cut -c1-400
 rc=${PIPESTATUS[0]}
 cd /repo && git checkout -- . && git status --short | head -3
 rm -rf /verif/replays/$ID
